@@ -1,1 +1,9 @@
-
+import SphericalVerif.Props.Sched
+#print axioms Sched.interleave_left
+#print axioms Sched.interleave_right
+#print axioms Sched.interleave_untouched
+#print axioms Sched.private_call_reads_in_region
+#print axioms Sched.private_call_writes_in_region
+#print axioms Sched.private_calls_noninterfering
+#print axioms Sched.private_call_avoids_default
+#print axioms Sched.tables_never_written
